@@ -412,28 +412,22 @@ def table_rules(prog, chk, pid):
                 pass
     okr = ranges is not None and sorted(b for b, _ in ranges) == sorted(tm.keys()) and all(b <= e for b, e in ranges) and all(ranges[i][1] < ranges[i + 1][0] for i in range(len(ranges) - 1))
     chk.require(okr, P_("tagtype-tables-agree"), BF3, "bases of is_known_tagtype ranges == keys of BF2_TAGTYPE_MAP", "%s:%d" % (fi.file, fi.lineno), "every known tag-type range starts at a mapped tag type and every mapped type opens a range (ranges ascending, disjoint)", "known ranges %s vs mapped keys %s" % (ranges, sorted(tm.keys())))
-    # predicate shape: any(base <= t <= end)
-    ex = Exec(prog, policy=lambda e, f, d: False)
-    res = ex.run(fi)
-    s = show(res.ret, 8) if res.ret is not None else ""
-    okp = s.startswith("any(") and res.ret is not None
-    comps = [lr for lr in ex.loops.values() if lr.kind == "comp"]
-    elts = []
-    if okp and comps:
-        elts = [comps[0].elt]
-    elif okp:
-        arg = unsnap(res.ret).args[1][0]
-        elts = ex.iter_items(arg, res.state) or []
-    okp = okp and bool(elts)
-    for elt in elts:
-        r = rel(elt, True) if elt is not None else None
-        good = r is not None and r[0] == "and" and len(r[1]) == 2 and all(a[0] == "rel" and a[1] == "LtE" for a in r[1])
-        if good:
-            lo, hi = r[1]
-            # base <= t  and  t <= end, same t (the parameter)
-            good = unsnap(lo[3]) is unsnap(hi[2]) and unsnap(lo[3]).op == "param"
-        okp = okp and good
-    chk.require(okp, P_("tagtype-tables-agree"), fi.qualname, "any(base <= tagtype <= end)", "%s:%d" % (fi.file, fi.lineno), "membership test is inclusive on both ends", "range membership is not base <= tagtype <= end")
+    # the predicate itself: interpreted for every tag type 0..255 (and the neighbours of the byte range) and compared with "some range contains it, both ends inclusive"
+    from rules import stackrt as _R
+
+    okp, whyp = ranges is not None, "the table of known ranges is not a constant list"
+    if okp:
+        stk = _R.Stack(prog)
+        for t in list(range(-1, 257)):
+            exq, resq = stk.run(BF3, "def drv():\n    return is_known_tagtype(%d)\n" % t, {})
+            want_t = any(b_ <= t <= e_ for b_, e_ in ranges)
+            got_t = cval(resq.ret) if (not resq.dead and resq.ret is not None and is_const(resq.ret)) else "?"
+            if got_t == "?" :
+                raise AnalysisError("is_known_tagtype(%d) does not evaluate to a constant" % t)
+            if bool(got_t) != want_t or not isinstance(got_t, bool):
+                okp, whyp = False, "is_known_tagtype(0x%02X) is %r; the range table says %r" % (t & 0xFFF, got_t, want_t)
+                break
+    chk.require(okp, P_("tagtype-tables-agree"), fi.qualname, "is_known_tagtype(t) for t = -1..256", "%s:%d" % (fi.file, fi.lineno), "a tag type is known exactly when one of the ranges contains it, both ends inclusive", whyp)
     want = {int(k, 16): tuple(v) for k, v in TABLE["tagtype_map"].items()}
     chk.require(dict(tm) == want, P_("tagtype-map-pinned"), BF3 + ".BF2_TAGTYPE_MAP", "tag type -> (type, hwcid, format, interface)", "", "mapping equals the pinned domain table (0x35 SM4200, 0x39 BGM12X, 0x3D PN5180, 0x40 SM6300 peripherals as blobs; 0x70/0x83 loader, 0x84 main as BF2-compatible; 0x34/0x48 ignored)",
                 "BF2_TAGTYPE_MAP differs from the pinned table at %s" % sorted(k for k in set(tm) | set(want) if tm.get(k) != want.get(k)))
